@@ -38,6 +38,15 @@ func C10(r *Run) *core.Report {
 		n6 += borrow(rep, tmp, "C10.H6", "C03.P14", "C04.P14")
 	}
 	rep.MinCount("C10.H6", "slot pairing obligations", n6, 4)
+	// H7: the key a reader compared stays the key of the entry it returns: published entries are never written again and
+	// slot pointers are per-call allocations (restated from C14.A3/A4 through C03/C04.P2)
+	n7 := 0
+	for i, mm := range r.M.Maps {
+		tmp := core.NewReport("C10")
+		p2Unique(r, tmp, []string{"C03", "C04"}[i], mm)
+		n7 += borrow(rep, tmp, "C10.H7", "C03.P2", "C04.P2")
+	}
+	rep.MinCount("C10.H7", "premise obligations (entries immutable, pointers unique)", n7, 3)
 	return rep
 }
 
